@@ -392,6 +392,31 @@ H_EXPECTED = r'''
 '''
 
 
+H_ACCEPTS = r'''
+    #[kani::proof]
+    #[kani::unwind(@UNWIND@)]
+    pub fn accepts() {
+        // the REAL generated __accepts (heap Vec) against the array-based table simulation, on the error stacks of all
+        // rejected inputs; the slice handed to the real function has a concrete length per case (depth <= @DMAX@)
+        let (n, kinds, idx) = input();
+        let r = lr_run(&idx, n, FUEL);
+        assert!(r.out != Out::Bound);
+        if r.out == Out::Reject {
+            let c: u8 = kani::any();
+            kani::assume(c < NKINDS);
+            kani::assume(ACTIVE[c as usize]);
+            let ci = tok_index(&mk(c, 0)).unwrap();
+            let listed = listed_tab(&r.stack, r.sp, Some(ci), FUEL);
+            assert!(listed.is_some());
+            let listed = listed.unwrap();
+            let eof_listed = listed_tab(&r.stack, r.sp, None, FUEL);
+@CASES@
+            kani::cover!(r.sp >= 2 && listed, "a stack of depth >= 3 with a listed terminal");
+        }
+    }
+'''
+
+
 @dataclass
 class Job:
     g: G.Grammar
@@ -468,6 +493,13 @@ def harness_module(job: Job):
             complete = '            if v { assert!(listed, "canonical LR(1): every valid continuation is listed"); }'
         txt.append(H_EXPECTED.replace("@UNWIND@", str(unwind)).replace("@COMPLETE@", complete))
         hs.append("expected")
+    if "accepts" in job.kinds:
+        dmax = 4
+        cases = []
+        for d in range(1, dmax + 1):
+            cases.append("            if r.sp + 1 == %d { let got = real_accepts(&r.stack[..%d], Some(ci)); assert!(got == listed, \"real __accepts agrees with the table simulation\"); }" % (d, d))
+        txt.append(H_ACCEPTS.replace("@UNWIND@", str(unwind)).replace("@DMAX@", str(dmax)).replace("@CASES@", "\n".join(cases)))
+        hs.append("accepts")
     job.harnesses = ["%s::%s" % (job.hmod, h) for h in hs]
     return "\n".join(txt) + "\n"
 
